@@ -96,14 +96,82 @@ func runC08(c *Ctx) {
 	r.Rule("paired-restore", "a field not assigned at entry (depth, ctx) must be restored wherever it is changed: every store of a non-reset value is followed in the same block by a defer whose closure stores the inverse/zero")
 	r.Rule("release-reset", "Release()/Reset() methods reset every per-call field")
 	r.Rule("no-global-state", "no function reachable from an entry point stores to a package-level variable of the parsing packages")
+	objs := []stateful{{"pkg/sql/parser", "Parser", "tokens"}, {"pkg/sql/tokenizer", "Tokenizer", "input"}}
+	putResetScratch = map[string]string{}
+	for _, s := range objs {
+		for f, why := range c08Scratch(p, s) {
+			putResetScratch[f] = why
+		}
+	}
 	n, _ := putResetRule(c, p, isStatefulPool, "put-reset", false)
 	r.Floor("put-reset", n, 1, "stateful Put sites")
 	total := 0
-	for _, s := range []stateful{{"pkg/sql/parser", "Parser", "tokens"}, {"pkg/sql/tokenizer", "Tokenizer", "input"}} {
+	for _, s := range objs {
 		total += c08Object(c, p, s)
 	}
 	r.Floor("entry-assign", r.Count("entry-assign"), 16, "(entry, field) pairs")
 	_ = total
+}
+
+// c08Scratch: unexported slice fields of the object that are scratch space: every load of the field in the package
+// either only truncates it to [:0] / measures its capacity, or comes after an assignment of the field in the same
+// function on every path. What an earlier use left in such a buffer cannot be observed, so it carries no state (only
+// capacity) and needs no reset. Keys are "pkg.Type.field" (as put-reset names fields) and "field".
+func c08Scratch(p *core.Prog, s stateful) map[string]string {
+	out := map[string]string{}
+	pk := p.Pkg(s.rel)
+	if pk == nil {
+		return out
+	}
+	obj := pk.Types.Scope().Lookup(s.typ)
+	if obj == nil {
+		return out
+	}
+	T := obj.Type().(*types.Named)
+	st := core.StructOf(T)
+	fns := p.SrcFuncs(s.rel)
+	eng := newResetEngine(p)
+	eng.assignMode = true
+	eng.objType = T
+	exp := newExposure(p, eng, T, fns, func(f *ssa.Function) bool { return core.InPkgs(f, s.rel) })
+	for i := 0; i < st.NumFields(); i++ {
+		fld := st.Field(i)
+		if fld.Exported() {
+			continue
+		}
+		if _, isSlice := fld.Type().Underlying().(*types.Slice); !isSlice {
+			continue
+		}
+		if fld.Name() == s.inputField {
+			continue
+		}
+		observed := false
+		for fn := range exp.solve(fld.Name()) {
+			nm := outer(fn).Name()
+			if nm != "Reset" && nm != "Release" {
+				observed = true
+			}
+		}
+		// a field nobody loads at all is not scratch space, it is dead or write-only: leave it to the ordinary rules
+		loaded := false
+		for _, fn := range fns {
+			for _, b := range fn.Blocks {
+				for _, in := range b.Instrs {
+					if u, ok := in.(*ssa.UnOp); ok && u.Op == token.MUL {
+						if fa0, ok := u.X.(*ssa.FieldAddr); ok && core.NamedOf(fa0.X.Type()) == T && core.FieldName(fa0.X.Type(), fa0.Field) == fld.Name() {
+							loaded = true
+						}
+					}
+				}
+			}
+		}
+		if !observed && loaded {
+			why := "scratch buffer: every use truncates it to [:0] or assigns it first, so what a previous use left in it is never observed (it keeps capacity only)"
+			out[pk.Types.Name()+"."+s.typ+"."+fld.Name()] = why
+			out[s.typ+"."+fld.Name()] = why
+		}
+	}
+	return out
 }
 
 func c08Object(c *Ctx, p *core.Prog, s stateful) int {
@@ -313,7 +381,9 @@ func c08Object(c *Ctx, p *core.Prog, s stateful) int {
 				continue // covered field by field by put-reset at the Put site that calls Reset
 			}
 			key := s.typ + "." + name + "|" + f
-			if covered(factSet(sum.gen), T, f) {
+			if why := putResetScratch[s.typ+"."+f]; why != "" {
+				r.OK("release-reset", key, p.FnPos(m), why)
+			} else if covered(factSet(sum.gen), T, f) {
 				r.OK("release-reset", key, p.FnPos(m), "")
 			} else {
 				r.Violate("release-reset", key, p.FnPos(m), name+"() leaves per-call field "+f+" untouched")
